@@ -448,6 +448,12 @@ class WriterK1(object):
             if path.outcome != 'return':
                 continue
             result['accepted'] = True
+            for ev_ in path.events[state['mark']:]:
+                if ev_.kind == 'encode' and ev_.data.get('errors') is not None and not (
+                        is_concrete(ev_.data['errors']) and concrete(ev_.data['errors']) == 'strict'):
+                    h_ = (state['name'], str(concrete(ev_.data['errors'])) if is_concrete(ev_.data['errors']) else '<unknown>', ev_.loc)
+                    if h_ not in result.setdefault('lenient_encode', []):
+                        result['lenient_encode'].append(h_)
             if getattr(self, 'last_abstract', False):
                 self._rendered_options(path, state, result)
             obj = state['obj']
@@ -614,7 +620,7 @@ _K = None
 def _run_one(seq):
     res = _K.run_sequence(seq)
     out = {'problems': res['problems'], 'sig': res.get('sig'), 'accepted': res.get('accepted', True)}
-    for k in ('raises', 'escapes', 'ops', 'pairs', 'next_id', 'prev_id', 'written_id', 'rendered', 'unrendered', 'arg_constraints', 'content_emptiness'):
+    for k in ('raises', 'escapes', 'ops', 'pairs', 'next_id', 'prev_id', 'written_id', 'rendered', 'unrendered', 'arg_constraints', 'content_emptiness', 'lenient_encode'):
         if k in res:
             out[k] = res[k]
     return out
